@@ -311,9 +311,16 @@ def r05_4(ck):
                     isinstance(first.value.elt, ast.List) and len(
                         first.value.elt.elts) == 1
                 rest = ds[1:]
-                after = all(d.kind == 'aug' and isinstance(
-                    d.stmt.op, ast.Add) for d in rest) and any(
-                    derives(gel.node, d.stmt.value, lambda x: tg and
+                def _grown(d):
+                    if d.kind == 'aug' and isinstance(d.stmt.op, ast.Add):
+                        return d.stmt.value
+                    if d.kind == 'mutate' and d.stmt.value.func.attr == \
+                            'extend':
+                        return d.value
+                    return None
+                after = bool(rest) and all(_grown(d) is not None
+                                           for d in rest) and any(
+                    derives(gel.node, _grown(d), lambda x: tg and
                             x is tg[0]) for d in rest)
                 seq_first = seq_first and singleton and after
         elif isinstance(v, ast.BinOp) and isinstance(v.op, ast.Add):
